@@ -328,7 +328,7 @@ main(void)
             rc = lyd_diff_siblings(A, B, atoi(r.tok[three ? 7 : 6]) ? LYD_DIFF_DEFAULTS : 0, &d);
             if (!three) {
                 /* a second, independently built A: lyd_dup_siblings() leaves an incomplete sorting tree behind when one
-                 * (leaf-)list directly follows another (finding F55), which misplaces later sorted inserts */
+                 * (leaf-)list directly follows another (finding F125), which misplaces later sorted inserts */
                 char *text = vp_unhex(r.tok[4], NULL);
 
                 tp_load(s, text, 1, &C);
